@@ -207,7 +207,10 @@ the restart; both sets have the same size). Not proved here: that link to the st
 composition through `EndBlock` on the State level (its context operations are covered by
 `C14_seal_prepare_agree_partial`). -/
 
-/-- the full continuation statement: every later block agrees (results and stored state) -/
+/-- the full continuation statement: every later block agrees (results and stored state).
+Proved with one added decidable hypothesis (the nonce invariant on the live end state), and without it for
+histories from a first start, in Props/C14Cont.lean: `C14_continuation_partial`,
+`C14_continuation_first_start_partial`. -/
 def C14_continuation_statement : Prop :=
   ∀ (s0 : State) (bs cont : List Block) (bt : Int), Faithful s0 bs →
     ∀ s outs s', runBlocks s0 bs = some (s, outs) → restartAt s bt = some s' →
